@@ -104,7 +104,10 @@ def runDnHist (ops : List Sexp) : R Sexp := do
     | (t, _) => throw s!"bad dn op {t}"
   pure (.list [.list (.atom "out" :: outs.reverse),
                .list (.atom "iter" :: dn.iter.map (fun e => .list [encDnType e.1, encDnValue e.2])),
-               .list [.atom "name", ofBytes (encode (writeDistinguishedName dn))]])
+               -- (a name holding a type whose identifier cannot be encoded is refused by generation)
+               .list [.atom "name", match checkName dn with
+                 | none => ofBytes (encode (writeDistinguishedName dn))
+                 | some _ => .atom "xfail"]])
 
 /-- the back end of a build named by its features: `ring`, `aws` (aws_lc_rs alone), `both` -/
 def parseBackend (s : String) : R Backend := do
